@@ -170,7 +170,7 @@ TRANSPORT_HABITS = ("transport habits drawn per call: transit time (the handler 
                     "client's socket is closed (half of the calls); in a sixth of the non-bidi calls a ResponseWriter without Flush (on HTTP/1.1 net/http's rule "
                     "for unchunked responses applies: trailers added after the first write are lost unless announced), in half of the HTTP/1.1 calls a "
                     "server that closes the connection on a client that keeps uploading after it has the answer; in half of the calls the server "
-                    "keeps the answer in its buffer until the handler flushes, overflows it or returns, and gives a complete one its Content-Length")
+                    "keeps the answer in its buffer until the handler flushes, overflows it or returns, and gives a complete one its Content-Length; an eighth of the calls go through an HTTPClient whose hand-built Response leaves ContentLength at zero")
 ADDENDA = {
     "C07": "unknown-compression requests include lists of codings on one header line and on two",
     "C10": "a re-sent Request may carry a deadline too far away for the header to express",
